@@ -107,14 +107,17 @@ class ImportSpec(Import):
     describe = ('same generator (well-formed abstract files only); the implementation\'s reading of the rendered text '
                 '(arbitrary blanks/tabs, leading zeros, with/without trailer and final newline) must be the instance the '
                 'abstract file denotes by Text/Render.v denote (dense tie-group ranks, 2-agent embedding, ignored second '
-                'side without -twopl), compared in Coq; non-trivial as R_import')
+                'side without -twopl) together with its per-project / per-lecturer / per-rank pair lists, compared in Coq; '
+                'non-trivial as R_import')
 
     def cases(self, ctx):
         for c in gen_files(ctx, self.name, 1500 if ctx.thorough else 240):
             yield c
 
     def term(self, inp, obs):
-        enc = impl.cinstance
+        def enc(s):
+            return '(%s, (%s, %s, %s))' % (impl.cinstance(s), impl.cidlists(s['project_lists']),
+                                           impl.cidlists(s['lecturer_lists']), impl.cidlists(s['rank_lists']))
         return '(c10_spec %s %s %s %s)' % (C.cz(inp['na']), C.cbool(inp['twopl']), cast(inp['ast']), C.cresult(obs, enc))
 
     def diag(self, inp, obs):
